@@ -8,6 +8,12 @@
 //!                it with the adapter's own transcript (ST_DEBUG_DAP_LOG: requests read, messages
 //!                queued, stop recv/drop/emit decisions) and the runtime's ST_DEBUG_TRACE lines
 //!                (written to the same O_APPEND file, i.e. in one total order).
+//! Script steps: req (gap in us before the write, -1 = same write as the previous request), cond (by the client's
+//! view: stopped / running), seq, wait (for a stopped event), sync (all responses), sleep, quiesce (positive-signal
+//! test that nothing is in flight and the hook waits, see `quiescent_stopped`).  A script may pin the adapter to one
+//! CPU and give its threads real-time priorities ("others-first", "main-first", "runner-main-coord"): legal schedules
+//! chosen from outside, used to hit the windows between two critical sections deterministically.
+//! Every script ends with a probe (pause if needed -> quiescent and stopped within 20 s) and disconnect (exit within 20 s).
 use crate::util::*;
 use serde_json::{json, Value as J};
 use std::io::{BufRead, BufReader, Write};
